@@ -155,9 +155,15 @@ class C15:
                 cwd = "docs"
             else:
                 cwd = foreign[0]["dir"] if foreign else ""
+            sk = rng.randint(0, 4)
+            # (the dangling-link output path only where packaging is expected to succeed: what a FAILING run leaves of a
+            #  pre-seeded output path is not part of the property)
+            if sk == 4 and (any(len(L["bins"]) > 1 and L["pkg"] not in L["bins"] for L in libs)
+                            or any(d == ["lib", "verif/does-not-exist"] for C in comps for d in C["deps"])):
+                sk = 3
             cases.append({"libs": libs, "comps": comps, "foreign": foreign, "cwd": cwd, "release": rng.random() < 0.3,
                           "pkgdir": rng.choice(["default", "default", "abs", "rel"]),
-                          "seed_ids": [x["id"] for x in libs + comps if rng.random() < 0.6], "seed_kind": rng.randint(0, 4)})
+                          "seed_ids": [x["id"] for x in libs + comps if rng.random() < 0.6], "seed_kind": sk})
         # designed: a libcnb.rs buildpack whose own package.toml depends on another one, packaged from its own directory
         cases.append({"libs": [{"dir": "buildpacks/base", "id": "verif/base", "pkg": "pbase", "bins": ["pbase"], "extra": "", "aux": []},
                                {"dir": "buildpacks/web", "id": "verif/web", "pkg": "pweb", "bins": ["pweb"], "extra": "", "aux": [],
